@@ -43,14 +43,14 @@ mod wide;
 #[path = "c01_x.rs"]
 mod x;
 
-pub const IMPORTS_A: &str = "From ZV.C01 Require Import Model ModelCtx ModelSer ModelNew.\n";
-/// ops 1-6 ModelCtx.v, 7-10 ModelSer.v, 11 ModelNew.v
-pub const DISPATCH_A: &str = "(if op <? 7 then run_case_a op a b else if op <? 11 then run_case_ser op a b else run_case_new op a b)";
+pub const IMPORTS_A: &str = "From ZV.C01 Require Import Model ModelCtx ModelSer ModelNew ModelPar.\n";
+/// ops 1-6 ModelCtx.v, 7-10 ModelSer.v, 11 ModelNew.v, 12 ModelPar.v
+pub const DISPATCH_A: &str = "(if op <? 7 then run_case_a op a b else if op <? 11 then run_case_ser op a b else if op <? 12 then run_case_new op a b else run_case_par op a b)";
 pub const HEADER_A: &str = r#"From ZV.Common Require Import Base Run.
-From ZV.C01 Require Import Model ModelCtx ModelSer ModelNew.
+From ZV.C01 Require Import Model ModelCtx ModelSer ModelNew ModelPar.
 Open Scope N_scope.
 Definition case_t : Type := N * list N * list N * list N.
-Definition run_case (op : N) (a b : list N) : list N := if op <? 7 then run_case_a op a b else if op <? 11 then run_case_ser op a b else run_case_new op a b.
+Definition run_case (op : N) (a b : list N) : list N := if op <? 7 then run_case_a op a b else if op <? 11 then run_case_ser op a b else if op <? 12 then run_case_new op a b else run_case_par op a b.
 Definition ok (c : case_t) : bool :=
   let '(op, a, b, expect) := c in eqb_ln (run_case op a b) expect.
 "#;
@@ -83,6 +83,8 @@ pub struct Cx {
     coq_share: usize,
     /// generator family the job belongs to: 0 enumerated, 1 boundary, 2 random, 3 crafted, 4 corpus / replay
     cat: u8,
+    /// the job's constructor cases (op 11) are emitted whatever the budget says
+    force_new: bool,
 }
 fn fnv64(s: &str) -> u64 {
     let mut h: u64 = 0xcbf29ce484222325;
@@ -91,12 +93,12 @@ fn fnv64(s: &str) -> u64 {
 }
 /// Coq cases per (operation, generator family): every modelled function is represented by every family
 fn coq_cap(op: u32, cat: u8, th: bool) -> usize {
-    let per_op = match op { 1 => 270, 2 => 380, 3 => 180, 4 => 240, 5 => 200, 6 => 270, 7 => 50, 8 => 120, 9 => 40, 10 => 140, 11 => 60, 12 => 40, _ => 40 };
+    let per_op = match op { 1 => 270, 2 => 380, 3 => 180, 4 => 240, 5 => 200, 6 => 270, 7 => 50, 8 => 120, 9 => 40, 10 => 140, 11 => 60, 12 => 120, _ => 40 };
     let pct = match cat { 0 => 15, 1 => 30, 2 => 15, 3 => 40, _ => 100 };
     (if th { 4 } else { 1 }) * per_op * pct / 100
 }
 impl Cx {
-    pub fn new(th: bool, coq_share: usize, cat: u8) -> Self { Cx { ev: vec![], th, coq_used: HashMap::new(), coq_share, cat } }
+    pub fn new(th: bool, coq_share: usize, cat: u8) -> Self { Cx { ev: vec![], th, coq_used: HashMap::new(), coq_share, cat, force_new: false } }
     fn eval(&mut self, cell: &str, key: &str, nontrivial: bool) {
         self.ev.push(Ev::Eval(cell.to_string(), format!("{} {:016x} {}", cell, fnv64(key), key.len()), nontrivial));
     }
@@ -417,6 +419,10 @@ fn par_case<P: ParallelVariant>(cx: &mut Cx, train: &[u8], data: &[u8], cj: &Val
                 if !auto { e.train(tr)?; }
                 e.encode(data)
             }).map(es);
+            {
+                let ops: Vec<(bool, Vec<u8>)> = if auto { vec![(false, data.to_vec())] } else { vec![(true, tr.to_vec()), (false, data.to_vec())] };
+                x::par_history::<P>(cx, cname, &ops, None, cj, false);
+            }
             let c3 = cfg.clone();
             judge(cx, &cell, cj, data, r, &mut |b, n| guarded(|| {
                 let mut d = ParallelHuffmanDecoder::<P>::new(c3.clone());
@@ -558,7 +564,7 @@ fn case_ctx(cx: &mut Cx, order: u64, train: &[u8], data: &[u8], xn_mask: u32, fo
         Err(p) => { let mut c = cj.clone(); c["cell"] = json!(cell); cx.eval(&cell, &cj.to_string(), true); cx.fail(&cell, None, c, &format!("constructor panicked: {}", p)); }
         Ok(Err(_)) => cx.dist("constructor_refused"),
         Ok(Ok(enc)) => {
-            if let Some(v) = view_of(&enc) { x::ctx_new_case(cx, order, train, &v, force); }
+            if let Some(v) = view_of(&enc) { let f = force || cx.force_new; x::ctx_new_case(cx, order, train, &v, f); }
             judge_encoder(cx, "ctx", enc, &cj, data, xn_mask, force)
         }
     }
@@ -735,6 +741,7 @@ pub fn run_one(cx: &mut Cx, c: &Value) -> bool {
         "ctx" => { case_ctx(cx, c["order"].as_u64().unwrap_or(1), &train, &data, mask, true); true }
         "crafted" => { let v = view_from_json(c["order"].as_u64().unwrap_or(1), &c["tables"], &c["ctxmap"]); case_crafted(cx, &v, &data, mask, true); true }
         "adaptive" => { case_adaptive(cx, &data); true }
+        "par_hist" => { x::run_par_hist(cx, c); true }
         "varlen" => { case_varlen(cx, c["value"].as_u64().unwrap_or(0) as u32, c["length"].as_u64().unwrap_or(1) as u32, c["bmi2"].as_bool().unwrap_or(true)); true }
         _ => wide::run_one(cx, c),
     }
@@ -775,11 +782,12 @@ pub fn run_cells(sum: &mut Summary, shards: &mut CoqShards, rng: &mut Rng, args:
     let th = args.thorough;
     // cells without a mechanism model of their own (the wrappers, the serialised forms, the SIMD bit buffer)
     sum.cell_status("huffman/order0/serialized_tree", "M+S");
+    for v in ["x2", "x4", "x8"] { sum.cell_status(&format!("parallel/{}/history", v), "M+S"); }
     for c in ["simd/avx2bmi2", "simd/avx2", "simd/sse42bmi2", "simd/sse42", "simd/bmi2", "simd/scalar", "parallel/adaptive", "bit_ops/varlen"] {
         sum.cell_status(c, "S-only");
     }
     for v in ["x2", "x4", "x8"] { for c in ["default", "low_latency", "high_throughput", "always_parallel"] { for a in ["", "/auto_train"] {
-        sum.cell_status(&format!("parallel/{}/{}{}", v, c, a), "S-only");
+        sum.cell_status(&format!("parallel/{}/{}{}", v, c, a), "M+S");
     } } }
     for pfx in ["ctx", "crafted"] {
         for k in 0..3 { sum.cell_status(&format!("{}/order{}/serialized", pfx, k), "M+S"); }
@@ -879,13 +887,16 @@ pub fn run_cells(sum: &mut Summary, shards: &mut CoqShards, rng: &mut Rng, args:
         { let al = alphabet(rng, 40); ts.push(payload(rng, 1, 3000, &al)); }
         { let al = alphabet(rng, 34); ts.push(payload(rng, 0, 2500, &al)); }
         { let al = alphabet(rng, 33); ts.push(payload(rng, 0, 1030, &al)); }
+        cx.force_new = true;
         for t in ts.iter() {
             for order in 0..3u64 {
                 let x: Vec<u8> = if t.len() > 300 { t[..50].iter().rev().cloned().collect() } else { t.iter().rev().cloned().collect() };
                 case_ctx(cx, order, t, &x, 0, false);
             }
         }
-    }), 100, 1));
+    }), 10, 1));
+    // 3c. histories on one ParallelHuffmanEncoder object
+    jobs.push((Box::new(move |cx: &mut Cx, rng: &mut Rng| x::par_jobs(cx, rng)), 100, 2));
     // 4. random cases
     for chunk in 0..(if th { 300 } else { 30 }) {
         jobs.push((Box::new(move |cx: &mut Cx, rng: &mut Rng| {
